@@ -45,6 +45,8 @@ def main(argv=None):
     if args.shard:
         i, n = (int(x) for x in args.shard.split("/"))
         ctx = core.Ctx(pid, args.tier, args.seed, shard=i, nshards=n)
+        if sys.flags.optimize:
+            ctx.count("shards_under_python_O")
         core.guarded(ctx, mod.run, ctx)
         with open(args.partial, "w") as f:
             json.dump(core.jsonable(ctx.dump_partial()), f)
@@ -79,7 +81,10 @@ def main(argv=None):
         procs = []
         for i in range(nshards):
             part = os.path.join(tmp, f"part{i}.json")
-            cmd = [sys.executable, "-B", os.path.join(HERE, "main.py"), pid, "--tier", args.tier,
+            # configuration coverage: the last shard of every sharded check runs under python -O (assert statements in the
+            # library are compiled away there; the harness itself contains none)
+            flags = ["-B", "-O"] if (i == nshards - 1 and getattr(mod, "OPTIMIZED_SHARD", True)) else ["-B"]
+            cmd = [sys.executable] + flags + [os.path.join(HERE, "main.py"), pid, "--tier", args.tier,
                    "--seed", str(args.seed), "--shard", f"{i}/{nshards}", "--partial", part]
             procs.append((i, part, subprocess.Popen(cmd, env=child_env(), stdout=subprocess.PIPE, stderr=subprocess.STDOUT, text=True)))
         limit = getattr(mod, "SHARD_TIMEOUT", {}).get(args.tier, 3600)
